@@ -13,6 +13,8 @@
      modpath  how the name of a module file is resolved       fileImport  run a FILE that imports a custom module 工具-计算
      numvar   the predefined value 数值 as INPUT-VARIABLE TEXTS  varInputInc  a request whose input-variable text is 甲 = 以数值（自增：5）
               see it (the texts are evaluated by a VM of their own)
+     natnames names declared INSIDE the body of a redefined    ctorDeclare  如何新建异常？ with a nested 如何内助？ / 定义内类, then 新建异常
+              constructor of a predefined type (the body runs in a frame of the shared native-code module)
      source   the program text bound to an interpreter       (LoadScript / LoadFile of another request)
    Design "intended": every execution starts from its own pristine copy of all cells, and the source is
    bound to the REQUEST.  Design "ascoded" (named deviation, the behaviour of the original code): the
@@ -25,9 +27,9 @@ EXTENDS Integers, Sequences, FiniteSets, TLC, Json
 
 CONSTANTS Design, Mode, MaxN, Conc
 
-Polluters == {"incNum", "redefExc", "redefLib", "mutLib", "failDeep", "declare", "importLib", "mutResp", "fileImport", "varInputInc"}
+Polluters == {"incNum", "redefExc", "redefLib", "mutLib", "failDeep", "declare", "importLib", "mutResp", "fileImport", "varInputInc", "ctorDeclare"}
 Pristine == [num |-> 0, excctor |-> "builtin", libctor |-> "builtin", libdef |-> "clean", frames |-> 0, names |-> {}, libs |-> {},
-             respdef |-> "clean", modpath |-> "fresh", numvar |-> 0]
+             respdef |-> "clean", modpath |-> "fresh", numvar |-> 0, natnames |-> {}]
 
 (* ------------------------------------------------------------------ the process-wide variables of the code
    Every package-level variable of DemoHn/Zn (go/types inventory, bound by the driver: a new or re-typed variable is
@@ -89,6 +91,7 @@ Effect(p, c) == CASE p = "incNum" -> [c EXCEPT !.num = @ + 5]
                   [] p = "mutResp" -> [c EXCEPT !.respdef = "dirty"]
                   [] p = "fileImport" -> [c EXCEPT !.modpath = "used"]
                   [] p = "varInputInc" -> [c EXCEPT !.numvar = @ + 5]
+                  [] p = "ctorDeclare" -> [c EXCEPT !.natnames = @ \cup {"helper", "type"}]
 Seqs == UNION {[1..n -> Polluters] : n \in 0..MaxN}
 SInit == /\ Mode = "seq" /\ seq \in Seqs /\ done = 0 /\ cells = Pristine /\ obs = [k |-> "none"]
          /\ st = <<>> /\ src = 0 /\ bound = <<>> /\ sched = <<>>
